@@ -85,6 +85,13 @@ class RealDom:
     def lt(self, a, b): return a < b
     def le(self, a, b): return a <= b
 
+    def to_sbv(self, a):
+        """float -> int cast of a value that is a concrete integer-valued rational"""
+        v = z3.simplify(a)
+        if z3.is_rational_value(v) and v.denominator_as_long() == 1:
+            return v.numerator_as_long()
+        raise Unmodelled("FloatToInt of a non-integral / symbolic real")
+
 
 class FPDom:
     def __init__(self, bits=64):
@@ -114,6 +121,18 @@ class FPDom:
     def ceil(self, a): return z3.fpRoundToIntegral(z3.RTP(), a)
     def round(self, a): return z3.fpRoundToIntegral(z3.RNA(), a)  # f64::round: ties away from zero
     def to_sbv(self, a): return z3.fpToSBV(z3.RTZ(), a, z3.BitVecSort(64))
+
+    def const_bits(self, f, bits):
+        return z3.FPVal(f, z3.Float64() if bits == 64 else z3.Float32())
+
+    def cast_float(self, a, bits):
+        return z3.fpFPToFP(self.rm, a, z3.Float64() if bits == 64 else z3.Float32())
+
+    def from_int_bits(self, i, bits):
+        srt = z3.Float64() if bits == 64 else z3.Float32()
+        if isinstance(i, int):
+            return z3.fpSignedToFP(self.rm, z3.BitVecVal(i, 64), srt)
+        return z3.fpSignedToFP(self.rm, i, srt)
 
 
 def is_sym(v):
@@ -265,9 +284,14 @@ class Interp:
             return int(m.group(1).replace("_", ""))
         m = re.match(r"^(-?[0-9.]+(?:[eE][-+]?\d+)?)(f32|f64)$", s)
         if m:
+            if hasattr(self.dom, "const_bits"):
+                return self.dom.const_bits(float(m.group(1)), 64 if m.group(2) == "f64" else 32)
             return self.dom.const(float(m.group(1)))
         if re.match(r"^-?\d+$", s):
             return int(s)
+        nm = s.split("::")[-1]
+        if re.match(r"^[A-Z_0-9]+$", nm) and nm in getattr(self.prog, "consts", {}):
+            return self.const(self.prog.consts[nm])
         raise Unmodelled("const " + s)
 
     def operand(self, s, st, d):
@@ -360,6 +384,8 @@ class Interp:
     # ---------------------------------------------------------- rvalues
     def rvalue(self, s, st, d, body):
         s = s.strip()
+        if s.startswith("no_retag "):
+            s = s[9:]
         m = re.match(r"^(\w+)\((.*)\)$", s)
         if m and m.group(1) in ("Add", "Sub", "Mul", "Div", "Rem", "Lt", "Le", "Gt", "Ge", "Eq", "Ne", "BitAnd", "BitOr",
                                 "AddWithOverflow", "SubWithOverflow", "MulWithOverflow", "Shl", "Shr", "Offset"):
@@ -393,8 +419,14 @@ class Interp:
             if kind == "FloatToInt":
                 return self.dom.to_sbv(v)
             if kind == "IntToFloat":
+                if hasattr(self.dom, "from_int_bits"):
+                    return self.dom.from_int_bits(v, 32 if m.group(2).strip() == "f32" else 64)
                 return self.dom.from_int(v)
-            if kind in ("IntToInt", "PtrToPtr", "Transmute", "PointerCoercion", "FloatToFloat"):
+            if kind == "FloatToFloat":
+                if hasattr(self.dom, "cast_float"):
+                    return self.dom.cast_float(v, 32 if m.group(2).strip() == "f32" else 64)
+                return v
+            if kind in ("IntToInt", "PtrToPtr", "Transmute", "PointerCoercion"):
                 return v
             raise Unmodelled("cast " + kind)
         if s.startswith("copy ") or s.startswith("move ") or s.startswith("const "):
